@@ -1,10 +1,10 @@
 (* Correspondence for C07 (joins return exactly the relational join of their two inputs).
    kind "prog": in = [src, steps, partitions_or_null], out = observed outcome.
-   agree : observed = engine model (modulo canon: join output order is a HashMap's);
+   agree : observed = engine model (Canon.cmp_of: join output order is a HashMap's, so rows are compared as a multiset);
    prop  : against the independent list semantics: a program in which a join is fed by another
            join must be rejected with the "nested CoGroup" error; a program ending in a join
            returns, as a multiset, Denote.d_join of the denotations of its two sides (computed
-           here explicitly); any other program returns Denote of the whole program modulo canon.
+           here explicitly); any other program returns Denote of the whole program in the comparison mode Canon.cmp_of.
    known : reorder class (not generated on purpose for this property). *)
 From Coq Require Import List ZArith Bool String.
 From IB Require Import Util.J Engine.Val Engine.Nodes Engine.Lang Engine.Denote Engine.Decode
@@ -16,7 +16,7 @@ Definition join_prop (s : src) (steps : list step) (o : obs) : bool :=
   match last_step steps, o with
   | Some (SJoin kind rs rd), OOk rows =>
       match ref_outcome s (but_last steps), ref_outcome (SrcVec TKV rd) rs with
-      | OOk l, OOk r => canon_eqb rows (d_join kind l r)
+      | OOk l, OOk r => rows_cmp (bag_mode steps) rows (d_join kind l r)
       | _, _ => false
       end
   | _, _ => true
